@@ -72,7 +72,15 @@ func init() {
 			case prevote:
 				c.Check(prevoteFns[outermost(s.Fn)], k.key(s.Fn, "cast prevote"), w.ipos(s.Instr), "prevote cast inside the installed prevote function", "prevote cast outside the function installed as doPrevote")
 			case precommit:
-				c.Check(entersStep(w, outermost(s.Fn), stepPrecommit), k.key(s.Fn, "cast precommit"), w.ipos(s.Instr), "precommit cast inside the function that enters RoundStepPrecommit", "precommit cast in a function that does not enter RoundStepPrecommit")
+				// the function itself, or — for a helper introduced later (e.g. "precommit nil" shared by several
+				// branches) — every function that calls it
+				okOwn := true
+				for _, o := range rootOwners(w, outermost(s.Fn), 0) {
+					if !entersStep(w, o, stepPrecommit) {
+						okOwn = false
+					}
+				}
+				c.Check(okOwn, k.key(s.Fn, "cast precommit"), w.ipos(s.Instr), "precommit cast inside the function that enters RoundStepPrecommit", "precommit cast in a function that does not enter RoundStepPrecommit")
 			default:
 				c.Fail(k.key(s.Fn, "cast other"), w.ipos(s.Instr), fmt.Sprintf("vote of unknown type %d cast", t))
 			}
@@ -391,4 +399,26 @@ func entersStep(w *World, f *ssa.Function, S int64) bool {
 		}
 	}
 	return false
+}
+
+// rootOwners: f itself if it existed when the rules were confirmed; for a function introduced later, the
+// (pre-existing) functions it is called from, through any number of later-introduced helpers.
+func rootOwners(w *World, f *ssa.Function, d int) []*ssa.Function {
+	if !isNewFunc(f) || d > 4 {
+		return []*ssa.Function{f}
+	}
+	var out []*ssa.Function
+	seen := map[*ssa.Function]bool{}
+	for _, cs := range w.callersOf(f) {
+		for _, o := range rootOwners(w, outermost(cs.Parent()), d+1) {
+			if !seen[o] {
+				seen[o] = true
+				out = append(out, o)
+			}
+		}
+	}
+	if len(out) == 0 {
+		return []*ssa.Function{f}
+	}
+	return out
 }
